@@ -519,6 +519,86 @@ def _sw_hash(h):
     return hashlib.sha256(("%s|%s|%s" % (h[0], h[2], h[3])).encode()).hexdigest()[:16]
 
 
+# ------------------------------------------------------------------------------------------------
+# read APIs documented as snapshots: one unchecked_transaction() bracket around every statement
+# ------------------------------------------------------------------------------------------------
+
+def _fn_body(src, name, rel):
+    """Body of the unique non-test `fn name(` in a blanked source that has a body."""
+    found = []
+    for m in re.finditer(r"\bfn\s+" + re.escape(name) + r"\s*(<[^(]*>)?\s*\(", src):
+        k, pd = m.end() - 1, 0
+        while k < len(src):
+            ch = src[k]
+            if ch in "([":
+                pd += 1
+            elif ch in ")]":
+                pd -= 1
+            elif ch == "{" and pd == 0:
+                break
+            elif ch == ";" and pd == 0:
+                k = -1
+                break
+            k += 1
+        if k > 0:
+            found.append(src[k + 1:match_brace(src, k)])
+    return found
+
+
+def snapshot_shape(body):
+    """True when the body opens exactly one `unchecked_transaction()` and touches the connection
+    nowhere else: no database read before (or beside) the bracket."""
+    b = norm(body)
+    if b.count("unchecked_transaction()") != 1:
+        return False, "not exactly one unchecked_transaction()"
+    stmts = split_stmts(b)
+    conn_tok = re.compile(r"\bconn\b")
+    open_i = [i for i, x in enumerate(stmts) if "unchecked_transaction()" in x]
+    if len(open_i) != 1:
+        return False, "bracket not opened at statement level"
+    i = open_i[0]
+    opener = stmts[i]
+    # the connection may be named only to open the bracket
+    if len(conn_tok.findall(b)) != 1 or len(conn_tok.findall(opener)) != 1:
+        return False, "the connection is used outside the unchecked_transaction() bracket"
+    for x in stmts[:i]:
+        if DB_TOUCH.search(x) or re.search(r"\bview\b|crate::wallet::|wallet::", x):
+            return False, "a statement before the bracket touches the database: " + x[:60]
+    m = re.match(r"^let ([a-z_]+) = conn\.unchecked_transaction\(\) ?\?$", opener)
+    if m:
+        return True, "let %s = conn.unchecked_transaction()?" % m.group(1)
+    if whole_call(opener, r"wallet::get_wallet_summary") and "&self.conn.borrow().unchecked_transaction()?" in opener:
+        return True, "single call taking &self.conn.borrow().unchecked_transaction()?"
+    return False, "unrecognised bracket opener"
+
+
+SNAPSHOT_READS = [
+    # (table name, file, impl-header regex or None for a free fn, fn name)
+    ("WalletRead::get_wallet_summary", LIB, r"WalletRead for WalletDb<C, P, CL, R>", "get_wallet_summary"),
+    ("store::mined_height", STORE, None, "mined_height"),
+    ("store::check_step_satisfiability", STORE, None, "check_step_satisfiability"),
+]
+
+
+def snapshot_reads():
+    out = []
+    for q, rel, hre, name in SNAPSHOT_READS:
+        src = top_level_test_cut(blank(srcgen.read(rel)))
+        if hre:
+            blocks = impl_blocks(src, hre)
+            bodies = [fb for _h, body in blocks for n, _m, fb in methods(body) if n == name]
+        else:
+            # free function at column 0
+            bodies = []
+            for m in re.finditer(r"^(?:pub(?:\([a-z]+\))? )?fn " + re.escape(name) + r"\b", src, flags=re.M):
+                bodies += _fn_body(src[m.start():], name, rel)[:1]
+        if len(bodies) != 1:
+            raise SrcgenError("%s: expected exactly one definition in %s, found %d" % (q, rel, len(bodies)))
+        ok, why = snapshot_shape(bodies[0])
+        out.append((q, ok, why))
+    return out
+
+
 def gen():
     table = extract()
     lines = ["From Coq Require Import String List.", "From V.C02 Require Import Shape.", "Import ListNotations.",
@@ -536,7 +616,14 @@ def gen():
     lines.append("Definition swallows : list (string * bool) := [")
     lines.append(";\n".join('  ("%s:%d %s #%s", %s)' % (h[0], h[1], h[2], _sw_hash(h), "true" if _sw_hash(h) in SWALLOW_OK else "false") for h in sw))
     lines.append("].")
+    sr = snapshot_reads()
+    lines.append("")
+    lines.append("(* read APIs documented as snapshots; true = the body is one unchecked_transaction() bracket and touches the connection nowhere else *)")
+    lines.append("Definition snapshot_reads : list (string * bool) := [")
+    lines.append(";\n".join('  ("%s", %s)' % (q, "true" if ok else "false") for q, ok, _w in sr))
+    lines.append("].")
     notes = ["(* %s: %s *)" % (q, d.replace("*)", "* )")) for q, s, d in table if d]
+    notes += ["(* snapshot read %s: %s *)" % (q, w) for q, _ok, w in sr]
     notes += ["(* swallow %s:%d %s: %s *)" % (h[0], h[1], h[2], h[3].replace("*)", "* )").replace("(*", "( *")[:200]) for h in sw]
     srcgen.write_gen("C02Shapes", "\n".join(lines + [""] + notes) + "\n")
     return table
